@@ -454,9 +454,9 @@ Proof.
 Qed.
 
 Lemma inv_admit s p : Inv s -> p < length (prods s) ->
-  pc (get_prod p s) = PAdmit \/ pc (get_prod p s) = PWoken -> Inv (admit p (get_prod p s) s).
+  pc (get_prod p s) = PAdmit \/ pc (get_prod p s) = PWoken -> Inv (admission p (get_prod p s) s).
 Proof.
-  intros I Hp E. unfold admit, push.
+  intros I Hp E. unfold admission, push.
   destruct (accepting s) eqn:Ha; cbn [negb].
   2: { destruct E as [E|E]; unfold get_prod in E; prod_counts Hp E (set_pc (PLeave 0));
        frame s p (set_pc (PLeave 0)) E I F1 F2; pfields I F1 F2. }
